@@ -48,7 +48,7 @@ DefaultCl == [form |-> "grpc", method |-> "Post", codec |-> "proto", comp |-> ""
               http |-> "", frames |-> <<>>, cut |-> "", clen |-> "", hdrs |-> <<>>, timeout |-> "", chunks |-> <<>>,
               path |-> "", ct |-> "", extra |-> <<>>, b64 |-> "", noflush |-> FALSE, rej |-> "", getdelta |-> ""]
 DefaultCfg == [protos |-> <<"connect", "grpc", "grpcweb">>, codecs |-> <<"proto", "json">>, comps |-> <<"gzip">>,
-               L |-> 0, maxget |-> 0, unknown |-> FALSE, schema |-> ""]
+               L |-> 0, maxget |-> 0, unknown |-> FALSE, schema |-> "", aux |-> FALSE]
 
 Frame(id, z) == [m |-> id, z |-> z, fault |-> ""]
 
